@@ -43,6 +43,59 @@ def sites(W):
     return out
 
 
+INSERT = {'insert': 'overwrite', 'extend': 'overwrite', 'entry': 'keep-existing', 'try_insert': 'keep-existing', 'get_or_insert_with': 'keep-existing'}
+
+
+def insert_table():
+    with open(os.path.join(VERIF, 'tables', 'removals.json')) as f:
+        return json.load(f)['inserts']
+
+
+def insert_sites(W):
+    """writes into map / set fields with their class (overwrite / keep-existing)"""
+    out = []
+    for w in W.writes():
+        if w['kind'] != 'call' or w['callee'] not in INSERT:
+            continue
+        f = w['fn']
+        if f.derived or 'sessions::builder' in f.path:
+            continue
+        ap = w['ap'].s(f, generic=True)
+        if not ap.startswith('self.'):
+            continue
+        t = w['site']
+        recv_ty = t.arg_tys[w.get('argi', 0)] if t.arg_tys else ''
+        if not any(m in recv_ty for m in MAPS):
+            continue
+        host = f.parent if f.kind == 'closure' and f.parent else f.path
+        out.append(dict(fn=f, host=short(host), field=ap, cls=INSERT[w['callee']], callee=w['callee'], line=w['line']))
+    return out
+
+
+def _inserts(W, ob, pid):
+    tab = insert_table()
+    mine = [t for t in tab if pid in t['props']]
+    fields = {t['field'] for t in mine}
+    listed = {(t['fn'], t['field'], t['cls']): t for t in tab}
+    seen = set()
+    for s in insert_sites(W):
+        if s['field'] not in fields and pid != 'C18':
+            continue
+        k = (s['host'], s['field'], s['cls'])
+        t = listed.get(k)
+        if t is not None:
+            seen.add(k)
+            ob.ok('%s: %s write into `%s` (%s) -- %s' % (s['host'], s['cls'], s['field'], s['callee'], t['why'][:160]), where(s['fn'], s['line']))
+        else:
+            other = [x for x in listed if x[0] == s['host'] and x[1] == s['field']]
+            ob.fail('insert|%s|%s|%s' % k, '%s writes into `%s` with `%s` (%s)%s: which value survives a repeated key is not what the reviewed table (tables/removals.json) says'
+                    % (s['host'], s['field'], s['callee'], s['cls'], '; the reviewed site there is `%s`' % other[0][2] if other else ', an unreviewed site'), where(s['fn'], s['line']))
+    for t in (tab if pid == 'C18' else mine):
+        k = (t['fn'], t['field'], t['cls'])
+        if k not in seen:
+            ob.fail('insert-missing|%s|%s|%s' % k, 'the reviewed %s write %s / `%s` was not found' % (t['cls'], t['fn'], t['field']), None)
+
+
 def rule_for(pid):
     def rule(W, ob):
         tab = table()
@@ -51,6 +104,9 @@ def rule_for(pid):
         listed = {(t['fn'], t['field'], t['cls']): t for t in tab}
         seen = set()
         n = 0
+        if not mine and pid != 'C18':
+            _inserts(W, ob, pid)
+            return
         for s in sites(W):
             k = (s['host'], s['field'], s['cls'])
             if s['field'] not in fields and pid != 'C18':
@@ -70,4 +126,5 @@ def rule_for(pid):
                 ob.fail('removal-missing|%s|%s|%s' % k, 'the reviewed removal site %s / `%s` (%s) was not found: the collection is no longer pruned / consumed there '
                         '(or the anchor moved)' % k, None)
         ob.require_count(n, len(want), 'removal sites')
+        _inserts(W, ob, pid)
     return rule
